@@ -6,6 +6,7 @@ package ugo
 
 import (
 	"context"
+	"time"
 )
 
 // Eval compiles and runs scripts within same scope.
@@ -84,8 +85,17 @@ func (r *Eval) run(ctx context.Context) (ret Object, err error) {
 
 		select {
 		case <-ctx.Done():
-			r.VM.Abort()
-			<-doneCh
+			// Abort has no effect if it precedes the reset of the abort flag
+			// at the start of Run on the goroutine above; repeat it until
+			// Run returns.
+			for aborted := false; !aborted; {
+				r.VM.Abort()
+				select {
+				case <-doneCh:
+					aborted = true
+				case <-time.After(time.Millisecond):
+				}
+			}
 			if err == nil {
 				err = ctx.Err()
 			}
